@@ -136,6 +136,18 @@ where
         validation::validate(keys, self.lalrpop_results.clone())
     }
 
+    /// Verification hook: the per-file results of the syntax stage (before validation)
+    #[cfg(feature = "verif-hooks")]
+    pub fn verif_parse_results(&self) -> &HashMap<ID, ParseFileResult<ID>> {
+        &self.lalrpop_results
+    }
+
+    /// Verification hook: the item keys (with kinds) seen by validation
+    #[cfg(feature = "verif-hooks")]
+    pub fn verif_item_keys(&self) -> HashMap<ast::ItemKey, ast::ResolvedItemKind> {
+        self.collect_item_keys()
+    }
+
     fn collect_item_keys(&self) -> HashMap<ast::ItemKey, ast::ResolvedItemKind> {
         // Note: if several files define the same key, the kind is chosen independently of the
         // (random) iteration order of the map
